@@ -212,3 +212,545 @@ Proof.
   - destruct (solve_n_sound _ _ _ _ E) as (Hm & Hlen & _). rewrite <- Hlen, map_nth_seq'. exact Hm.
   - exact (solve_n_complete _ _ _ Hok Hmax E).
 Qed.
+
+(* ================================================================ Part C *)
+(* Every query the model puts to the SAT solver is well formed (no literal 0), hence decided by
+   [dpll_oracle]: no run aborts.  [nab m Q]: from a state whose session holds well-formed clauses, m
+   never aborts, leaves such a state, and returns values satisfying Q. *)
+From Crusta Require Import Model.Encoders Model.Graph Model.Solvers Proofs.ProgLaws Proofs.EncSpec Proofs.EncAll
+  Proofs.Decomp Proofs.TopBase.
+Open Scope prog_scope.
+
+Definition Iok (s : Prog.st) : Prop := cnf_ok (rclauses (sess s)) = true.
+Lemma cnf_ok_rev f : cnf_ok (rev f) = cnf_ok f.
+Proof.
+  unfold cnf_ok. induction f as [|c r IH]; [reflexivity|]. cbn [rev forallb]. rewrite forallb_app, IH. cbn [forallb].
+  rewrite andb_true_r. apply andb_comm.
+Qed.
+
+Definition nab {A} (m : Prog.M A) (Q : A -> Prop) : Prop :=
+  forall s, Iok s -> match m s with Done a s' => Iok s' /\ Q a | Abort _ => False | _ => True end.
+Notation T := (fun _ => True).
+
+Lemma nab_ret {A} (a : A) (Q : A -> Prop) : Q a -> nab (ret a) Q.
+Proof. intros H s Hs. cbn. auto. Qed.
+Lemma nab_panic {A} (Q : A -> Prop) : nab panic Q.
+Proof. intros s Hs. exact I. Qed.
+Lemma nab_oof {A} (Q : A -> Prop) : nab out_of_fuel Q.
+Proof. intros s Hs. exact I. Qed.
+Lemma nab_bind {A B} (m : Prog.M A) (k : A -> Prog.M B) (P : A -> Prop) (Q : B -> Prop) :
+  nab m P -> (forall a, P a -> nab (k a) Q) -> nab (bind m k) Q.
+Proof.
+  intros Hm Hk s Hs. unfold bind. specialize (Hm s Hs). destruct (m s) as [a s1|s1|s1|s1]; try exact Hm; try exact I.
+  destruct Hm as [H1 H2]. exact (Hk a H2 s1 H1).
+Qed.
+Lemma nab_weaken {A} (m : Prog.M A) (P Q : A -> Prop) : nab m P -> (forall a, P a -> Q a) -> nab m Q.
+Proof. intros H HPQ s Hs. specialize (H s Hs). destruct (m s); auto. destruct H. auto. Qed.
+Lemma nab_new : nab new_solver T.
+Proof. intros s Hs. cbn. split; [reflexivity|exact I]. Qed.
+Lemma nab_reserve n : nab (reserve n) T.
+Proof. intros s Hs. cbn. split; [exact Hs|exact I]. Qed.
+Lemma nab_nvars : nab n_vars T.
+Proof. intros s Hs. cbn. split; [exact Hs|exact I]. Qed.
+Lemma nab_add c : clause_ok c = true -> nab (add_clause c) T.
+Proof. intros Hc s Hs. cbn. split; [|exact I]. unfold Iok in *. cbn. rewrite Hc. exact Hs. Qed.
+Lemma nab_adds cs : cnf_ok cs = true -> nab (add_clauses cs) T.
+Proof.
+  induction cs as [|c r IH]; intros H; cbn [add_clauses]; [apply nab_ret; exact I|].
+  cbn [cnf_ok forallb] in H. apply andb_true_iff in H. destruct H as [H1 H2].
+  eapply nab_bind; [apply nab_add; exact H1|]. intros _ _. apply IH. exact H2.
+Qed.
+Lemma nab_solve a : clause_ok a = true -> nab (Prog.solve dpll_oracle a) T.
+Proof.
+  intros Ha s Hs. unfold Prog.solve.
+  pose proof (dpll_oracle_decided (calls s) (rev (rclauses (sess s))) a) as Hd.
+  rewrite cnf_ok_rev in Hd. specialize (Hd Hs Ha).
+  destruct (dpll_oracle (calls s) (rev (rclauses (sess s))) a); try congruence;
+    (split; [|exact I]); unfold Iok, log_ev; cbn [sess]; destruct (disc s); exact Hs.
+Qed.
+
+(* ---- literals *)
+Lemma lit_ok_zlit v : 0 < v -> lit_ok (zlit v) = true.
+Proof. intros H. unfold lit_ok, zlit. lia. Qed.
+Lemma lit_ok_negate l : lit_ok (negate l) = lit_ok l.
+Proof. unfold lit_ok, negate. lia. Qed.
+Lemma lit_ok_arg e a : lit_ok (arg_to_lit e a) = true.
+Proof. apply lit_ok_zlit, arg_var_pos. Qed.
+Lemma clause_ok_app a b : clause_ok (a ++ b) = clause_ok a && clause_ok b.
+Proof. apply forallb_app. Qed.
+Lemma clause_ok_map {A} (f : A -> lit) l : (forall x, In x l -> lit_ok (f x) = true) -> clause_ok (map f l) = true.
+Proof. intros H. unfold clause_ok. apply forallb_forall. intros y Hy. apply in_map_iff in Hy. destruct Hy as (x & <- & Hx). auto. Qed.
+Lemma clause_ok_single l : clause_ok [l] = lit_ok l.
+Proof. cbn. apply andb_true_r. Qed.
+
+(* ---- the MaximalExtensionComputer *)
+Definition fl_ok (fl : flavour) : Prop := match fl with FIdeal forb => clause_ok forb = true | _ => True end.
+Definition cok (c : computer) : Prop := lit_ok (c_sel c) = true /\ clause_ok (c_addl c) = true /\ fl_ok (c_fl c).
+Lemma cok_with_cur c cur m s : cok c -> cok (with_cur c cur m s).
+Proof. exact (fun H => H). Qed.
+Lemma cok_with_state c s : cok c -> cok (with_state c s).
+Proof. exact (fun H => H). Qed.
+
+Lemma split_ext_ok e n has cur :
+  clause_ok (fst (split_in_extension e n has cur)) = true /\ clause_ok (snd (split_in_extension e n has cur)) = true.
+Proof. unfold split_in_extension. cbn [fst snd]. split; apply clause_ok_map; intros; apply lit_ok_arg. Qed.
+Lemma first_range_var_pos e n frv : first_range_var e n = Some frv -> 0 < frv.
+Proof. unfold first_range_var, aux_range, exp_range. destruct e; intros H; inversion H; lia. Qed.
+Lemma split_range_ok c : clause_ok (fst (split_in_range c)) = true /\ clause_ok (snd (split_in_range c)) = true.
+Proof.
+  unfold split_in_range. destruct (first_range_var (c_e c) (c_n c)) as [frv|] eqn:E; [|split; reflexivity].
+  apply first_range_var_pos in E. destruct (c_model c); cbn [fst snd]; split; apply clause_ok_map; intros x Hx;
+    apply lit_ok_zlit; try lia; apply filter_In in Hx; destruct Hx as [Hx _]; apply in_seq in Hx; lia.
+Qed.
+
+Section Walk.
+Variable thr : nat.
+Hypothesis Hthr : 1 <= thr.
+Notation oracle := dpll_oracle.
+
+Lemma nab_encode e range F n : compact_af F n -> nab (encode_m thr e range F) T.
+Proof.
+  intros HF. unfold encode_m. destruct (encode_af e thr range F) as [[r C]|] eqn:E; [|apply nab_panic].
+  assert (HC : cnf_ok C = true).
+  { destruct (all_layout e thr range F n Hthr HF) as (H1 & _).
+    assert (Ec : enc_clauses e thr range F = Some C) by (unfold enc_clauses; rewrite E; reflexivity).
+    unfold cnf_ok, clause_ok. apply forallb_forall. intros c Hc. apply forallb_forall. intros l Hl.
+    destruct (H1 C Ec c l Hc Hl) as [Hn _]. unfold lit_ok. lia. }
+  eapply nab_bind; [|intros _ _; apply nab_adds; exact HC].
+  destruct r; [apply nab_reserve|apply nab_ret; exact I].
+Qed.
+
+Lemma nab_new_computer e n has g a2e fl : fl_ok fl -> nab (new_computer e n has g a2e fl) cok.
+Proof.
+  intros Hfl. unfold new_computer. eapply nab_bind; [apply nab_nvars|]. intros nv _. apply nab_ret.
+  unfold cok. cbn [c_sel c_addl c_fl]. split; [apply lit_ok_zlit; lia|]. split; [reflexivity|exact Hfl].
+Qed.
+Lemma nab_new_cc_computer e F fl : fl_ok fl -> nab (new_cc_computer e F fl) cok.
+Proof. intros H. unfold new_cc_computer. apply nab_new_computer. exact H. Qed.
+Lemma nab_solve_c c a : cok c -> clause_ok a = true -> nab (solve_c oracle c a) T.
+Proof.
+  intros (_ & Hl & _) Ha. unfold solve_c. eapply nab_bind; [apply nab_solve; rewrite clause_ok_app, Ha, Hl; reflexivity|].
+  intros r _. apply nab_ret. exact I.
+Qed.
+Lemma sel_clause_ok c l : cok c -> clause_ok l = true -> clause_ok (l ++ [c_sel c]) = true.
+Proof. intros (Hs & _) Hl. rewrite clause_ok_app, Hl, clause_ok_single. exact Hs. Qed.
+Lemma nab_increase c : cok c -> nab (increase_assumptions c) (fun a => clause_ok a = true).
+Proof.
+  intros Hc. pose proof Hc as (Hs & _ & Hf). unfold increase_assumptions.
+  pose proof (split_ext_ok (c_e c) (c_n c) (c_has c) (c_cur c)) as [E1 E2]. pose proof (split_range_ok c) as [R1 R2].
+  destruct (c_fl c) as [| |forb].
+  - destruct (split_in_extension _ _ _ _) as [i o]. cbn [fst snd] in *.
+    eapply nab_bind; [apply nab_add, sel_clause_ok; assumption|]. intros _ _. apply nab_ret.
+    rewrite clause_ok_app, E1, clause_ok_single, lit_ok_negate. exact Hs.
+  - destruct (split_in_range c) as [i o]. cbn [fst snd] in *.
+    eapply nab_bind; [apply nab_add, sel_clause_ok; assumption|]. intros _ _. apply nab_ret.
+    rewrite clause_ok_app, R1, clause_ok_single, lit_ok_negate. exact Hs.
+  - destruct (split_in_extension _ _ _ _) as [i o]. cbn [fst snd] in *.
+    eapply nab_bind; [apply nab_add, sel_clause_ok; assumption|]. intros _ _. apply nab_ret.
+    rewrite !clause_ok_app, E1, clause_ok_single, lit_ok_negate, Hs. exact Hf.
+Qed.
+Lemma nab_discard_maximal c : cok c -> nab (discard_maximal c) T.
+Proof.
+  intros Hc. unfold discard_maximal. destruct (c_fl c); [| |apply nab_panic]; apply nab_add, sel_clause_ok; auto.
+  - apply split_ext_ok.
+  - apply split_range_ok.
+Qed.
+Lemma nab_discard_current c : cok c -> nab (discard_current c) T.
+Proof.
+  intros Hc. unfold discard_current. destruct (c_fl c); try apply nab_panic. apply nab_add, sel_clause_ok; auto. apply split_ext_ok.
+Qed.
+Lemma nab_new_search c : cok c -> nab (new_search oracle c) cok.
+Proof.
+  intros Hc. unfold new_search. eapply nab_bind.
+  - apply nab_solve_c; [exact Hc|]. rewrite clause_ok_single, lit_ok_negate. exact (proj1 Hc).
+  - intros r _. apply nab_ret. destruct r as [[m e]|]; exact Hc.
+Qed.
+Lemma nab_compute_next c : cok c -> nab (compute_next oracle c) cok.
+Proof.
+  intros Hc. unfold compute_next. destruct (c_state c).
+  - eapply nab_bind; [apply nab_discard_maximal; exact Hc|]. intros _ _. apply nab_new_search. exact Hc.
+  - eapply nab_bind; [apply nab_increase; exact Hc|]. intros a Ha.
+    eapply nab_bind; [apply nab_solve_c; assumption|]. intros r _. apply nab_ret. destruct r as [[m e]|]; exact Hc.
+  - apply nab_new_search. exact Hc.
+  - apply nab_panic.
+  - apply nab_ret. exact Hc.
+Qed.
+Lemma nab_discard_current_search c : cok c -> nab (discard_current_search c) cok.
+Proof.
+  intros Hc. unfold discard_current_search. eapply nab_bind; [apply nab_discard_current; exact Hc|].
+  intros _ _. apply nab_ret. exact Hc.
+Qed.
+Lemma nab_drop c : cok c -> nab (drop c) T.
+Proof. intros Hc. unfold drop. apply nab_add. rewrite clause_ok_single. exact (proj1 Hc). Qed.
+Lemma nab_compute_maximal fuel : forall c, cok c -> nab (compute_maximal oracle fuel c) T.
+Proof.
+  induction fuel as [|f IH]; intros c Hc; cbn [compute_maximal]; [apply nab_oof|].
+  destruct (c_state c);
+    try (eapply nab_bind; [apply nab_compute_next; exact Hc|intros c' Hc'; apply IH; exact Hc']).
+  eapply nab_bind; [apply nab_drop; exact Hc|intros _ _; apply nab_ret; exact I].
+Qed.
+
+Lemma nab_opt {A} (o : option A) : nab (match o with Some l => ret l | None => panic end) (fun r => o = Some r).
+Proof. destruct o; [apply nab_ret; reflexivity|apply nab_panic]. Qed.
+Lemma nab_for_ccs {A} (l : list comp) (f : A -> comp -> Prog.M A) :
+  (forall a c, In c l -> nab (f a c) T) -> forall acc, nab (for_ccs l acc f) T.
+Proof.
+  induction l as [|c r IH]; intros Hf acc; cbn [for_ccs]; [apply nab_ret; exact I|].
+  eapply nab_bind; [apply Hf; left; reflexivity|]. intros a _. apply IH. intros a' c' Hc'. apply Hf. right; exact Hc'.
+Qed.
+
+Lemma nab_guarded e (lam : Prog.M (list nat)) close : nab lam T -> nab (guarded_disj oracle e lam close) T.
+Proof.
+  intros Hl. unfold guarded_disj. eapply nab_bind; [apply nab_nvars|]. intros nv _.
+  assert (Hs : lit_ok (zlit (1 + nv)) = true) by (apply lit_ok_zlit; lia).
+  eapply nab_bind; [exact Hl|]. intros la _.
+  eapply nab_bind.
+  { apply nab_add. rewrite clause_ok_app, clause_ok_single, lit_ok_negate, Hs, andb_true_r.
+    apply clause_ok_map. intros; apply lit_ok_arg. }
+  intros _ _. eapply nab_bind; [apply nab_solve; rewrite clause_ok_single; exact Hs|]. intros r _.
+  eapply nab_bind; [|intros _ _; apply nab_ret; exact I].
+  destruct close; [apply nab_add; rewrite clause_ok_single, lit_ok_negate; exact Hs|apply nab_ret; exact I].
+Qed.
+
+(* ---- components *)
+Definition cgood (c : comp) : Prop := compact_af (c_af c) (length (c_ids c)).
+Variable g : gview.
+Definition allgood : Prop := forall l, all_ccs g = Some l -> forall c, In c l -> cgood c.
+Definition mgood (al : list nat) : Prop :=
+  forall s' c, merged_cc_of g (cc_new g) al = Some (s', c) ->
+    cgood c /\ forall rest, remaining_ccs g s' = Some rest -> forall c', In c' rest -> cgood c'.
+
+Lemma nab_ccs : allgood -> nab (ccs_m g) (fun l => forall c, In c l -> cgood c).
+Proof. intros H. unfold ccs_m. eapply nab_weaken; [apply nab_opt|]. intros l E. exact (H l E). Qed.
+Lemma nab_merged al : mgood al -> nab (merged_m g al)
+  (fun sc => cgood (snd sc) /\ forall rest, remaining_ccs g (fst sc) = Some rest -> forall c', In c' rest -> cgood c').
+Proof. intros H. unfold merged_m. eapply nab_weaken; [apply nab_opt|]. intros [s' c] E. exact (H s' c E). Qed.
+Lemma nab_remaining s (P : comp -> Prop) :
+  (forall rest, remaining_ccs g s = Some rest -> forall c', In c' rest -> P c') ->
+  nab (remaining_m g s) (fun l => forall c, In c l -> P c).
+Proof. intros H. unfold remaining_m. eapply nab_weaken; [apply nab_opt|]. intros l E. exact (H l E). Qed.
+Lemma nab_locals c al : nab (locals_m c al) T.
+Proof. unfold locals_m. eapply nab_weaken; [apply nab_opt|]. auto. Qed.
+
+(* ---- CO *)
+Lemma nab_co_dc e al : mgood al -> nab (co_dc oracle thr e g al) T.
+Proof.
+  intros Hm. unfold co_dc. eapply nab_bind; [apply nab_new|]. intros _ _.
+  eapply nab_bind; [apply nab_merged; exact Hm|]. intros sc [Hc _]. cbv zeta.
+  eapply nab_bind; [eapply nab_encode; exact Hc|]. intros _ _.
+  eapply nab_bind; [apply nab_guarded, nab_locals|]. intros r _. apply nab_ret. exact I.
+Qed.
+Lemma nab_co_dc_cert e al : mgood al -> nab (co_dc_cert oracle thr e g al) T.
+Proof.
+  intros Hm. unfold co_dc_cert. eapply nab_bind; [apply nab_merged; exact Hm|]. intros sc [Hc Hrest]. cbv zeta.
+  eapply nab_bind; [apply nab_new|]. intros _ _.
+  eapply nab_bind; [eapply nab_encode; exact Hc|]. intros _ _.
+  eapply nab_bind; [apply nab_guarded, nab_locals|]. intros r _.
+  destruct r; [|apply nab_ret; exact I].
+  eapply nab_bind; [apply (nab_remaining _ (fun _ => True)); auto|]. intros others _. apply nab_ret. exact I.
+Qed.
+
+(* ---- ST *)
+Lemma nab_st_cc c in_cc pol : cgood c -> nab (st_cc oracle thr c in_cc pol) T.
+Proof.
+  intros Hc. unfold st_cc. eapply nab_bind; [apply nab_new|]. intros _ _.
+  eapply nab_bind; [eapply nab_encode; exact Hc|]. intros _ _.
+  assert (H0 : nab (m <- Prog.solve oracle [] ;; ret (option_map (fun m => (m, false)) m)) T).
+  { eapply nab_bind; [apply nab_solve; reflexivity|]. intros m _. apply nab_ret. exact I. }
+  destruct in_cc as [|x r]; [exact H0|]. destruct pol.
+  - eapply nab_bind; [apply nab_guarded, nab_ret; exact I|]. intros m1 _.
+    destruct m1; [apply nab_ret; exact I|exact H0].
+  - eapply nab_bind; [|intros m _; apply nab_ret; exact I].
+    apply nab_solve. apply clause_ok_map. intros a _. rewrite lit_ok_negate. apply lit_ok_arg.
+Qed.
+Lemma nab_st_se_loop : forall l merged, (forall c, In c l -> cgood c) -> nab (st_se_loop oracle thr l merged) T.
+Proof.
+  induction l as [|c r IH]; intros merged H; cbn [st_se_loop]; [apply nab_ret; exact I|].
+  eapply nab_bind; [apply nab_st_cc, H; left; reflexivity|]. intros m _.
+  destruct m as [[m b]|]; [|apply nab_ret; exact I]. apply IH. intros c' Hc'. apply H. right; exact Hc'.
+Qed.
+Lemma nab_st_se : allgood -> nab (st_se oracle thr g) T.
+Proof. intros H. unfold st_se. eapply nab_bind; [apply nab_ccs; exact H|]. intros l Hl. apply nab_st_se_loop. exact Hl. Qed.
+Lemma nab_st_accept_loop al pol su : forall l merged found, (forall c, In c l -> cgood c) ->
+  nab (st_accept_loop oracle thr al pol su l merged found) T.
+Proof.
+  induction l as [|c r IH]; intros merged found H; cbn [st_accept_loop].
+  - destruct found; apply nab_ret; exact I.
+  - eapply nab_bind; [apply nab_st_cc, H; left; reflexivity|]. intros m _.
+    destruct m as [[m b]|]; [|apply nab_ret; exact I]. apply IH. intros c' Hc'. apply H. right; exact Hc'.
+Qed.
+Lemma nab_st_accept al pol su : allgood -> nab (st_accept oracle thr g al pol su) T.
+Proof. intros H. unfold st_accept. eapply nab_bind; [apply nab_ccs; exact H|]. intros l Hl. apply nab_st_accept_loop. exact Hl. Qed.
+
+(* ---- PR *)
+Lemma nab_pr_max_in_cc fuel e c : cgood c -> nab (pr_max_in_cc oracle thr fuel e c) T.
+Proof.
+  intros Hc. unfold pr_max_in_cc. eapply nab_bind; [apply nab_new|]. intros _ _.
+  eapply nab_bind; [eapply nab_encode; exact Hc|]. intros _ _.
+  eapply nab_bind; [apply nab_new_cc_computer; exact I|]. intros k Hk.
+  eapply nab_bind; [apply nab_compute_maximal; exact Hk|]. intros l _. apply nab_ret. exact I.
+Qed.
+Lemma nab_max_loop {A} (l : list comp) (acc : A) (body : comp -> Prog.M (list nat)) (k : A -> comp -> list nat -> A) :
+  (forall c, In c l -> nab (body c) T) ->
+  nab (for_ccs l acc (fun merged c => x <- body c ;; ret (k merged c x))) T.
+Proof.
+  intros H. apply nab_for_ccs. intros a c Hc. eapply nab_bind; [apply H; exact Hc|]. intros x _. apply nab_ret. exact I.
+Qed.
+Lemma nab_pr_se fuel e : allgood -> nab (pr_se oracle thr fuel e g) T.
+Proof.
+  intros H. unfold pr_se. eapply nab_bind; [apply nab_ccs; exact H|]. intros l Hl.
+  eapply nab_bind; [|intros r _; apply nab_ret; exact I].
+  apply (nab_max_loop l [] (pr_max_in_cc oracle thr fuel e) (fun merged _ x => merged ++ x)).
+  intros c Hc. apply nab_pr_max_in_cc, Hl, Hc.
+Qed.
+Lemma nab_pr_ds_loop fuel F la sc : forall k, cok k -> nab (pr_ds_loop oracle fuel F la sc k) T.
+Proof.
+  induction fuel as [|f IH]; intros k Hk; cbn [pr_ds_loop]; [apply nab_oof|].
+  eapply nab_bind; [apply nab_compute_next; exact Hk|]. intros k' Hk'.
+  assert (Hd : forall r, nab (drop k' ;;; ret r) (fun _ : bool * option (list nat) => True)).
+  { intros r. eapply nab_bind; [apply nab_drop; exact Hk'|]. intros _ _. apply nab_ret. exact I. }
+  destruct (c_state k').
+  - destruct (negb _); [apply Hd|apply IH; exact Hk'].
+  - destruct (meets la (c_cur k')).
+    + eapply nab_bind; [apply nab_discard_current_search; exact Hk'|]. intros k'' Hk''. apply IH. exact Hk''.
+    + destruct (sc && _); [apply Hd|apply IH; exact Hk'].
+  - apply IH. exact Hk'.
+  - apply Hd.
+  - apply IH. exact Hk'.
+Qed.
+Lemma nab_pr_ds_in_cc fuel e c al sc : cgood c -> nab (pr_ds_in_cc oracle thr fuel e c al sc) T.
+Proof.
+  intros Hc. unfold pr_ds_in_cc. eapply nab_bind; [apply nab_locals|]. intros la _.
+  eapply nab_bind; [apply nab_new|]. intros _ _.
+  eapply nab_bind; [eapply nab_encode; exact Hc|]. intros _ _.
+  eapply nab_bind; [apply nab_new_cc_computer; exact I|]. intros k Hk. apply nab_pr_ds_loop. exact Hk.
+Qed.
+Lemma nab_pr_ds fuel e al : mgood al -> nab (pr_ds oracle thr fuel e g al) T.
+Proof.
+  intros Hm. unfold pr_ds. eapply nab_bind; [apply nab_merged; exact Hm|]. intros sc [Hc _].
+  eapply nab_bind; [apply nab_pr_ds_in_cc; exact Hc|]. intros r _. apply nab_ret. exact I.
+Qed.
+Lemma nab_pr_ds_cert fuel e al : mgood al -> nab (pr_ds_cert oracle thr fuel e g al) T.
+Proof.
+  intros Hm. unfold pr_ds_cert. eapply nab_bind; [apply nab_merged; exact Hm|]. intros sc [Hc Hrest].
+  eapply nab_bind; [apply nab_pr_ds_in_cc; exact Hc|]. intros [b [ce|]] _; destruct b; try apply nab_panic; try (apply nab_ret; exact I).
+  eapply nab_bind; [apply (nab_remaining _ cgood); exact Hrest|]. intros others Ho.
+  eapply nab_bind; [|intros r _; apply nab_ret; exact I].
+  apply (nab_max_loop others _ (pr_max_in_cc oracle thr fuel e) (fun merged _ x => merged ++ x)).
+  intros c Hc'. apply nab_pr_max_in_cc, Ho, Hc'.
+Qed.
+
+(* ---- SST / STG *)
+Lemma nab_rg_max_in_cc fuel e c : cgood c -> nab (rg_max_in_cc oracle thr fuel e c) T.
+Proof.
+  intros Hc. unfold rg_max_in_cc. eapply nab_bind; [apply nab_new|]. intros _ _.
+  eapply nab_bind; [eapply nab_encode; exact Hc|]. intros _ _.
+  eapply nab_bind; [apply nab_new_cc_computer; exact I|]. intros k Hk.
+  eapply nab_bind; [apply nab_compute_maximal; exact Hk|]. intros l _. apply nab_ret. exact I.
+Qed.
+Lemma nab_rg_se fuel e : allgood -> nab (rg_se oracle thr fuel e g) T.
+Proof.
+  intros H. unfold rg_se. eapply nab_bind; [apply nab_ccs; exact H|]. intros l Hl.
+  eapply nab_bind; [|intros r _; apply nab_ret; exact I].
+  apply (nab_max_loop l [] (rg_max_in_cc oracle thr fuel e) (fun merged _ x => merged ++ x)).
+  intros c Hc. apply nab_rg_max_in_cc, Hl, Hc.
+Qed.
+Lemma nab_rg_loop fuel e n la cred : forall k, cok k -> nab (rg_loop oracle fuel e n la cred k) T.
+Proof.
+  induction fuel as [|f IH]; intros k Hk; cbn [rg_loop]; [apply nab_oof|].
+  eapply nab_bind; [apply nab_compute_next; exact Hk|]. intros k' Hk'.
+  assert (Hd : forall r, nab (drop k' ;;; ret r) (fun _ : bool * option (list nat) => True)).
+  { intros r. eapply nab_bind; [apply nab_drop; exact Hk'|]. intros _ _. apply nab_ret. exact I. }
+  destruct (c_state k'); try (apply IH; exact Hk'); [|apply Hd].
+  destruct (_ || _); [apply Hd|].
+  pose proof (split_range_ok k') as [R1 R2]. destruct (split_in_range k') as [inrg notr]. cbn [fst snd] in R1, R2.
+  assert (Hbase : clause_ok (inrg ++ map negate notr ++ [c_sel k']) = true).
+  { rewrite !clause_ok_app, R1, clause_ok_single, (proj1 Hk'), andb_true_r. cbn [andb].
+    apply clause_ok_map. intros x Hx. rewrite lit_ok_negate. unfold clause_ok in R2. rewrite forallb_forall in R2. auto. }
+  destruct cred.
+  - eapply nab_bind; [apply nab_nvars|]. intros nv _.
+    assert (Hs : lit_ok (zlit (1 + nv)) = true) by (apply lit_ok_zlit; lia).
+    eapply nab_bind.
+    { apply nab_add. rewrite clause_ok_app, clause_ok_single, lit_ok_negate, Hs, andb_true_r.
+      apply clause_ok_map. intros; apply lit_ok_arg. }
+    intros _ _. eapply nab_bind; [apply nab_solve; rewrite clause_ok_app, Hbase, clause_ok_single; exact Hs|]. intros r _.
+    eapply nab_bind; [apply nab_add; rewrite clause_ok_single, lit_ok_negate; exact Hs|]. intros _ _.
+    destruct r; [apply Hd|apply IH; exact Hk'].
+  - eapply nab_bind.
+    { apply nab_solve. rewrite clause_ok_app, Hbase. apply clause_ok_map. intros a _. rewrite lit_ok_negate. apply lit_ok_arg. }
+    intros r _. destruct r; [apply Hd|apply IH; exact Hk'].
+Qed.
+Lemma nab_rg_in_cc fuel e c al cred : cgood c -> nab (rg_in_cc oracle thr fuel e c al cred) T.
+Proof.
+  intros Hc. unfold rg_in_cc. eapply nab_bind; [apply nab_locals|]. intros la _.
+  eapply nab_bind; [apply nab_new|]. intros _ _.
+  eapply nab_bind; [eapply nab_encode; exact Hc|]. intros _ _.
+  eapply nab_bind; [apply nab_new_cc_computer; exact I|]. intros k Hk. apply nab_rg_loop. exact Hk.
+Qed.
+Lemma nab_rg_accept fuel e al cred : mgood al -> nab (rg_accept oracle thr fuel e g al cred) T.
+Proof.
+  intros Hm. unfold rg_accept. eapply nab_bind; [apply nab_merged; exact Hm|]. intros sc [Hc _].
+  eapply nab_bind; [apply nab_rg_in_cc; exact Hc|]. intros r _. apply nab_ret. exact I.
+Qed.
+Lemma nab_rg_accept_cert fuel e al cred : mgood al -> nab (rg_accept_cert oracle thr fuel e g al cred) T.
+Proof.
+  intros Hm. unfold rg_accept_cert. eapply nab_bind; [apply nab_merged; exact Hm|]. intros sc [Hc Hrest].
+  eapply nab_bind; [apply nab_rg_in_cc; exact Hc|]. intros r _. destruct (snd r); [|apply nab_ret; exact I].
+  eapply nab_bind; [apply (nab_remaining _ cgood); exact Hrest|]. intros others Ho.
+  eapply nab_bind; [|intros x _; apply nab_ret; exact I].
+  apply (nab_max_loop others _ (rg_max_in_cc oracle thr fuel e) (fun merged _ x => merged ++ x)).
+  intros c Hc'. apply nab_rg_max_in_cc, Ho, Hc'.
+Qed.
+
+(* ---- ID *)
+Lemma nab_id_enum_loop fuel n ngr : forall k ia nia np, cok k -> nab (id_enum_loop oracle fuel n ngr k ia nia np) T.
+Proof.
+  induction fuel as [|f IH]; intros k ia nia np Hk; cbn [id_enum_loop]; [apply nab_oof|].
+  eapply nab_bind; [apply nab_compute_next; exact Hk|]. intros k' Hk'.
+  assert (Hd : forall r, nab (drop k' ;;; ret r) (fun _ : list bool * nat * nat => True)).
+  { intros r. eapply nab_bind; [apply nab_drop; exact Hk'|]. intros _ _. apply nab_ret. exact I. }
+  destruct (c_state k'); try (apply IH; exact Hk'); [|apply Hd].
+  cbv zeta. destruct (Nat.eqb _ _); [apply Hd|apply IH; exact Hk'].
+Qed.
+Lemma nab_id_in_all fuel e F n ngr : compact_af F n -> nab (id_in_all oracle thr fuel e F ngr) T.
+Proof.
+  intros HF. unfold id_in_all. cbv zeta. eapply nab_bind; [eapply nab_encode; exact HF|]. intros _ _.
+  eapply nab_bind; [apply nab_new_cc_computer; exact I|]. intros k Hk. apply nab_id_enum_loop. exact Hk.
+Qed.
+Lemma id_forbidden_ok e ia : clause_ok (id_forbidden e ia) = true.
+Proof. unfold id_forbidden. apply clause_ok_map. intros i _. rewrite lit_ok_negate. apply lit_ok_arg. Qed.
+Lemma nab_id_maximal_allowed fuel e F ia : nab (id_maximal_allowed oracle fuel e F ia) T.
+Proof.
+  unfold id_maximal_allowed. eapply nab_bind; [apply nab_new_cc_computer; cbn [fl_ok]; apply id_forbidden_ok|].
+  intros k Hk. apply nab_compute_maximal. exact Hk.
+Qed.
+Lemma nab_id_ext_for_cc fuel e F n : compact_af F n -> nab (id_ext_for_cc oracle thr fuel e F) T.
+Proof.
+  intros HF. unfold id_ext_for_cc. cbv zeta. eapply nab_bind; [apply nab_new|]. intros _ _.
+  eapply nab_bind; [eapply nab_id_in_all; exact HF|]. intros [[ia nia] np] _.
+  destruct (Nat.eqb _ _); [apply nab_ret; exact I|]. destruct (Nat.eqb _ _); [apply nab_ret; exact I|].
+  apply nab_id_maximal_allowed.
+Qed.
+Lemma nab_id_se fuel e : allgood -> nab (id_se oracle thr fuel e g) T.
+Proof.
+  intros H. unfold id_se. eapply nab_bind; [apply nab_ccs; exact H|]. intros l Hl.
+  eapply nab_bind; [|intros r _; apply nab_ret; exact I].
+  apply nab_for_ccs. intros merged c Hc. pose proof (Hl c Hc) as Hg.
+  eapply nab_bind; [apply nab_new|]. intros _ _.
+  eapply nab_bind; [eapply nab_encode; exact Hg|]. intros _ _.
+  eapply nab_bind; [eapply nab_id_ext_for_cc; exact Hg|]. intros x _. apply nab_ret. exact I.
+Qed.
+Lemma nab_id_cred_for_cc fuel e F n la : compact_af F n -> nab (id_cred_for_cc oracle thr fuel e F la) T.
+Proof.
+  intros HF. unfold id_cred_for_cc. cbv zeta. eapply nab_bind; [apply nab_new|]. intros _ _.
+  eapply nab_bind; [eapply nab_id_in_all; exact HF|]. intros [[ia nia] np] _.
+  destruct (forallb _ la); [apply nab_ret; exact I|].
+  destruct (Nat.eqb _ _); [apply nab_ret; exact I|]. destruct (Nat.eqb _ _); [apply nab_ret; exact I|].
+  eapply nab_bind; [apply nab_id_maximal_allowed|]. intros l _. apply nab_ret. exact I.
+Qed.
+Lemma nab_id_dc fuel e al : mgood al -> nab (id_dc oracle thr fuel e g al) T.
+Proof.
+  intros Hm. unfold id_dc. eapply nab_bind; [apply nab_merged; exact Hm|]. intros sc [Hc _].
+  eapply nab_bind; [apply nab_locals|]. intros la _.
+  eapply nab_bind; [eapply nab_id_cred_for_cc; exact Hc|]. intros r _. apply nab_ret. exact I.
+Qed.
+Lemma nab_id_dc_cert fuel e al : mgood al -> nab (id_dc_cert oracle thr fuel e g al) T.
+Proof.
+  intros Hm. unfold id_dc_cert. eapply nab_bind; [apply nab_merged; exact Hm|]. intros sc [Hc Hrest].
+  eapply nab_bind; [apply nab_locals|]. intros la _.
+  eapply nab_bind; [eapply nab_id_cred_for_cc; exact Hc|]. intros [b [ce|]] _; destruct b; try (apply nab_ret; exact I).
+  eapply nab_bind; [apply (nab_remaining _ cgood); exact Hrest|]. intros others Ho.
+  eapply nab_bind; [|intros x _; apply nab_ret; exact I].
+  apply nab_for_ccs. intros merged c Hc'. eapply nab_bind; [eapply nab_id_ext_for_cc; exact (Ho c Hc')|].
+  intros x _. apply nab_ret. exact I.
+Qed.
+Lemma nab_id_ds_cert fuel e al : allgood -> nab (id_ds_cert oracle thr fuel e g al) T.
+Proof.
+  intros H. unfold id_ds_cert. eapply nab_bind; [apply nab_id_se; exact H|]. intros [ext|] _; [|apply nab_panic].
+  destruct (meets al ext); apply nab_ret; exact I.
+Qed.
+
+(* ---- every entry point *)
+Definition uses_merged (s : sem) (q : query) (cert : bool) : bool :=
+  match s, q with
+  | CO, QDC | PR, QDS | SST, (QDC | QDS) | STG, (QDC | QDS) | ID, QDC => true
+  | ID, QDS => negb cert
+  | _, _ => false
+  end.
+Theorem nab_run_query fuel s q cert e al :
+  allgood -> (uses_merged s q cert = true -> mgood al) ->
+  nab (run_query oracle thr fuel s q cert e g al) T.
+Proof.
+  intros Ha Hm. unfold run_query. cbv zeta.
+  assert (Wacc : forall m : Prog.M (bool * option (list nat)), nab m T -> nab (r <- m ;; ret (OAcc (fst r) (snd r))) T).
+  { intros m H. eapply nab_bind; [exact H|]. intros r _. apply nab_ret. exact I. }
+  assert (Wb : forall m : Prog.M bool, nab m T -> nab (r <- m ;; ret (OAcc r None)) T).
+  { intros m H. eapply nab_bind; [exact H|]. intros r _. apply nab_ret. exact I. }
+  assert (Wn : forall m : Prog.M (bool * option (list nat)), nab m T -> nab (r <- m ;; ret (OAcc (fst r) None)) T).
+  { intros m H. eapply nab_bind; [exact H|]. intros r _. apply nab_ret. exact I. }
+  assert (We : forall m : Prog.M (option (list nat)), nab m T -> nab (r <- m ;; ret (OExt r)) T).
+  { intros m H. eapply nab_bind; [exact H|]. intros r _. apply nab_ret. exact I. }
+  destruct s, q; cbn [uses_merged] in Hm; try apply nab_panic;
+    try (apply nab_ret; exact I);
+    try (destruct cert; first [apply Wacc|apply Wn|apply Wb]);
+    try apply We;
+    try (apply nab_ret; exact I);
+    first [ apply nab_co_dc_cert | apply nab_co_dc | apply nab_st_se | apply nab_st_accept | apply nab_pr_se
+          | apply nab_pr_ds_cert | apply nab_pr_ds | apply nab_rg_se | apply nab_rg_accept_cert | apply nab_rg_accept
+          | apply nab_id_se | apply nab_id_dc_cert | apply nab_id_ds_cert | apply nab_id_dc ];
+    first [exact Ha | apply Hm; reflexivity].
+Qed.
+
+End Walk.
+
+(* ================================================================ Part D *)
+From Crusta Require Import Proofs.TopMax Proofs.SolverTop.
+
+(* ---- (a) the static solvers, every entry point: with the verified solver as backend a query on a
+   good view with enough fuel RETURNS the right outcome *)
+Lemma good_view_allgood g F : view_good g F -> allgood g.
+Proof.
+  intros Hv l El c Hc. destruct (vg_cc g F Hv) as (ccs & E & Hd). assert (l = ccs) by congruence. subst l.
+  destruct (d_compact F ccs Hd c Hc) as [A B]. split; assumption.
+Qed.
+Lemma good_view_mgood g F al : view_good g F -> (forall a, In a al -> In a (args F)) -> mgood g al.
+Proof.
+  intros Hv Hal s' c E. destruct (vg_merged g F al Hv Hal) as (s1 & c1 & la & rest & E1 & _ & _ & _ & E2 & Hd).
+  rewrite E1 in E. injection E as <- <-.
+  split.
+  - destruct (d_compact F _ Hd c1 (or_introl eq_refl)) as [A B]. split; assumption.
+  - intros rest' E' c' Hc'. assert (rest' = rest) by congruence. subst rest'.
+    destruct (d_compact F _ Hd c' (or_intror Hc')) as [A B]. split; assumption.
+Qed.
+
+Theorem static_unconditional thr g F fuel s q cert e al st0 :
+  1 <= thr -> view_good g F -> supported s q -> enc_ok s e -> al_ok s q F al ->
+  fuel_ok s e (query_comps s q cert g al) fuel ->
+  cnf_ok (rclauses (sess st0)) = true ->
+  exists o st', run_query dpll_oracle thr fuel s q cert e g al st0 = Done o st' /\
+                outcome_spec s q cert F al o /\
+                calls st' <= calls st0 + total_bound s e (query_comps s q cert g al).
+Proof.
+  intros Ht Hv Hs He Hal Hf H0.
+  pose proof (run_query_correct dpll_oracle thr Ht dpll_oracle_valid F g Hv fuel s q cert e al st0 Hs He Hal) as Hr.
+  assert (Hn : nab (run_query dpll_oracle thr fuel s q cert e g al) T).
+  { apply nab_run_query; [exact Ht|exact (good_view_allgood g F Hv)|].
+    intros Hu. apply (good_view_mgood g F al Hv).
+    destruct s, q; cbn [uses_merged] in Hu; try discriminate Hu; exact Hal. }
+  specialize (Hn st0 H0). unfold run_ok in Hr.
+  destruct (run_query dpll_oracle thr fuel s q cert e g al st0) as [o st'|st'|st'|st'].
+  - exists o, st'. split; [reflexivity|exact Hr].
+  - destruct Hn.
+  - destruct Hr.
+  - destruct Hr as [_ Hr]. exfalso. exact (Hr Hf).
+Qed.
+
+(* from the initial state of a run ([Prog.run d]) *)
+Corollary static_unconditional_run thr d g F fuel s q cert e al :
+  1 <= thr -> view_good g F -> supported s q -> enc_ok s e -> al_ok s q F al ->
+  fuel_ok s e (query_comps s q cert g al) fuel ->
+  exists o st', Prog.run d (run_query dpll_oracle thr fuel s q cert e g al) = Done o st' /\
+                outcome_spec s q cert F al o /\ calls st' <= total_bound s e (query_comps s q cert g al).
+Proof.
+  intros. unfold Prog.run. apply (static_unconditional thr g F fuel s q cert e al (init_st d)); auto.
+Qed.
